@@ -15,7 +15,16 @@ stays accounted for.  (b) a backend whose query frame reads the pipeline state w
 (`query_expression` with `{state[..]}` + `state_defaults`) under a pipeline that sets the state for some rules only
 (also for rules that fail afterwards): the state a rule leaves must not be visible in a later rule's query.  Every backend
 instance gets a fresh class with its own copies of all mutable class-level containers, so the solo oracle cannot be
-contaminated by state another conversion left on a shared class."""
+contaminated by state another conversion left on a shared class.
+
+Round 5: stream 'templates'.  "Each query equals what converting the rule alone yields" is quantified over all rules, so also
+over rules that use the match forms a text backend renders with a dedicated template each (startswith / endswith / contains,
+plain and case-sensitive, regular expression, CIDR, exact and case-sensitive exact match, wildcard match, exists, null, numeric
+comparison, field reference).  Kinds `okmatch` (one item of every form), `oknotmatch` (the same items below a NOT) and
+`notmatchplaceholder` (the same items below a NOT, the last one with an unresolved placeholder: fails inside the negated part)
+are arranged with the other kinds in every position, under the backend variants incl. `noteqfull` = dedicated negated
+templates for every form (`convert_not_as_not_eq` with all `not_*` / `case_sensitive_not_*` expressions).  Whatever templates a
+conversion uses or swaps for one rule, a later (or earlier) rule's query is its solo query."""
 from __future__ import annotations
 import copy, random
 from .common import Verdict, outcome_of_exception
@@ -30,12 +39,26 @@ RULE = ("collections of 1..6 rules drawn from {ok single condition, ok two condi
         "; correlation rules over a failing referenced rule (in every order, collecting and not)"
         "; round 4: x conversion callback {identity, condition index, wildcard count, boolean, blank string, empty/non-empty container, skip odd} "
         "judged against the callback applied by hand to the solo queries; x backend whose query frame reads the pipeline state with "
-        "state_defaults under a pipeline that sets the state for some rules only (incl. rules failing afterwards)")
+        "state_defaults under a pipeline that sets the state for some rules only (incl. rules failing afterwards)"
+        "; round 5: stream 'templates' = rules with one item of every match form a text backend has a template for (startswith/endswith/contains plain "
+        "and cased, re, cidr, exact, cased exact, wildcard, exists, null, compare, fieldref) plain (okmatch), below a NOT (oknotmatch) and below a NOT with a "
+        "failing item (notmatchplaceholder), arranged with the other kinds in every position (all arrangements of length 2, sampled 3..5) x backends "
+        "{std, noteq, noteqfull (a dedicated negated template for every form), noin} x pipelines x error collection on/off")
 ASSUMPTIONS = [
     "a backend that lacks a feature raises NotImplementedError, which pySigma deliberately does not collect: failure stages are the four the property names, all Sigma errors",
     "correlation rules are C09/C10's subject; here collections contain detection rules only",
 ]
 KINDS = ["ok1", "ok2", "pipefail", "placeholder", "badvalue", "missingdet", "oknot", "notplaceholder"]
+# round 5: kinds of the 'templates' stream (own stream: the arrangements over KINDS stay as they were)
+MATCH_KINDS = ["okmatch", "oknotmatch", "notmatchplaceholder"]
+
+
+def match_items(i):
+    """one detection item of every match form the text backend renders with a template of its own"""
+    return {"fieldA|startswith": f"pre{i}", "fieldB|endswith": f"suf{i}", "fieldC|contains": f"mid{i}",
+            "fieldD|startswith|cased": f"Pre{i}", "fieldE|endswith|cased": f"Suf{i}.EXE", "fieldF|contains|cased": f"Mid{i}",
+            "fieldG|re": f"a{i}.*b", "fieldH|cidr": "10.0.0.0/8", "fieldI": f"exact{i}", "fieldJ|cased": f"Exact{i}",
+            "fieldK|exists": True, "fieldL": None, "fieldM|gt": 5 + i, "fieldN|fieldref": "fieldI", "fieldO": f"wild*card{i}"}
 
 
 def rule_doc(kind, i):
@@ -56,6 +79,12 @@ def rule_doc(kind, i):
         base["detection"] = {"sel": {"fieldA": f"v{i}"}, "flt": {"fieldB|expand": f"%nope{i}%"}, "condition": "sel and not flt"}
     elif kind == "missingdet":
         base["detection"] = {"sel": {"fieldA": f"v{i}"}, "condition": "sel and nosuchdetection"}
+    elif kind == "okmatch":
+        base["detection"] = {"sel": match_items(i), "condition": "sel"}
+    elif kind == "oknotmatch":
+        base["detection"] = {"sel": {"fieldA": f"v{i}"}, "flt": match_items(i), "condition": "sel and not flt"}
+    elif kind == "notmatchplaceholder":   # fails at the last item of the negated part, after the others were rendered
+        base["detection"] = {"sel": {"fieldA": f"v{i}"}, "flt": dict(match_items(i), **{"fieldP|expand": f"%nope{i}%"}), "condition": "sel and not flt"}
     return base
 
 
@@ -86,6 +115,13 @@ PIPES = {False: PIPE_NOFAIL, True: PIPE, "add": PIPE_ADD, "state": PIPE_STATE}
 # backend variants: class attributes of a fresh TextQueryTestBackend subclass
 BACKENDS = {"std": {}, "noteq": {"convert_not_as_not_eq": True, "not_eq_token": "!="},
             "noin": {"convert_or_as_in": False, "convert_and_as_in": False},
+            # dedicated negated templates for every match form
+            "noteqfull": {"convert_not_as_not_eq": True, "not_eq_token": "!=", "not_eq_expression": "{field}!={value}", "not_re_expression": "{field}!=/{regex}/",
+                          "not_cidr_expression": "cidrnotmatch('{field}', \"{value}\")", "not_startswith_expression": "{field} not_startswith {value}",
+                          "not_endswith_expression": "{field} not_endswith {value}", "not_contains_expression": "{field} not_contains {value}",
+                          "case_sensitive_not_startswith_expression": "{field} not_startswith_cased {value}",
+                          "case_sensitive_not_endswith_expression": "{field} not_endswith_cased {value}",
+                          "case_sensitive_not_contains_expression": "{field} not_contains_cased {value}"},
             # the query frame reads the pipeline state; keys the pipeline did not set for the rule come from the backend's defaults
             "state": {"query_expression": "idx={state[idx]} src={state[src]} extra={state[extra]} | {query}",
                       "state_defaults": {"idx": "main", "src": "any", "extra": "none"}}}
@@ -160,6 +196,23 @@ def gen_cases(tier, seed, gen, effort):
             continue
         cases.append({"kinds": list(a), "pipe": rnd.choice([True, True, False, "add", "state"]), "collect": rnd.random() < 0.7,
                       "backend": rnd.choice(["std", "std", "noteq", "noin", "state"]), "callback": rnd.choice(CALLBACKS)})
+    # round 5: stream 'templates' (own random stream) - rules with one item of every match form, plain / negated / failing in the negated
+    # part, in every position next to the other kinds
+    rnd5 = random.Random(seed * 6007 + 85)
+    allk = KINDS + MATCH_KINDS
+    tarrs = [a for a in itertools.product(allk, repeat=2) if set(a) & set(MATCH_KINDS)]
+    for _ in range((150 if not thorough else 3000) * effort):
+        a = tuple(rnd5.choice(allk if rnd5.random() < 0.5 else MATCH_KINDS + ["oknot", "notplaceholder"]) for _ in range(rnd5.randint(3, 5)))
+        if set(a) & set(MATCH_KINDS):
+            tarrs.append(a)
+    for a in tarrs:
+        # a backend with negated templates for some forms only (noteq) cannot render every negated form: NotImplementedError, not collected
+        negated = bool(set(a) & {"oknotmatch", "notmatchplaceholder"})
+        for be in ("std", "noteqfull", "noin" if negated else "noteq"):
+            if be in ("std", "noin") and rnd5.random() < 0.5:
+                continue
+            for collect in (True, False):
+                cases.append({"kinds": list(a), "pipe": rnd5.choice([True, False, "add", "state"]), "collect": collect, "backend": be, "stream": "templates"})
     return cases, False
 
 
@@ -291,7 +344,7 @@ def judge(case, impl, reply):
     fails = [i for i, s in enumerate(solo) if "err" in s]
     nt = 0 < len(fails) < len(kinds)
     tags = (f"n:{len(kinds)}", f"fails:{min(len(fails), 3)}", f"collect:{case['collect']}", f"pipe:{case['pipe']}", f"backend:{case.get('backend', 'std')}", f"impl:{io.split(':')[0]}",
-            f"callback:{case.get('callback')}")
+            f"callback:{case.get('callback')}") + ((f"stream:{case['stream']}",) if case.get("stream") else ())
     cbtxt = f", callback={case['callback']}" if case.get("callback") else ""
     for i, s in enumerate(solo):
         if "err" in s and s["err"].startswith("other:"):
